@@ -1,5 +1,6 @@
 """C02 - readers decode every spec-conformant file, however it was encoded (DESIGN.md section 5, C02)."""
 import os
+import sys
 
 LEVEL = "exploration"
 RULE = ("exhaustive products of finite menus of free encoding choices x small abstract data sets, no random generation. An independent, "
@@ -21,7 +22,8 @@ PARTS = [("tiny", 1), ("agree", 2), ("o5m", 16), ("opl", 16), ("xml", 16), ("pbf
 
 
 def build(ctx):
-    flags = ['-DC02_DIR="%s"' % ctx.checkdir, '-DC02_DATA="%s"' % os.path.join(os.path.dirname(os.path.dirname(ctx.checkdir)), "build", "C02-data")]
+    flags = ['-DC02_DIR="%s"' % ctx.checkdir, '-DC02_DATA="%s"' % os.path.join(os.path.dirname(os.path.dirname(ctx.checkdir)), "build", "C02-data"),
+             '-DC02_PYTHON="%s"' % sys.executable]
     return {"h02": ctx.build("h02", ["h02.cpp"], flags=flags, opt="-O2")}
 
 
@@ -29,7 +31,7 @@ def run(ctx):
     exe = build(ctx)["h02"]
     if getattr(ctx, "build_only", False):
         return
-    env = {"PYTHONDONTWRITEBYTECODE": "1", "OSMIUM_POOL_THREADS": "2"}
+    env = {"PYTHONDONTWRITEBYTECODE": "1", "OSMIUM_POOL_THREADS": "2", "C02_PYTHON": sys.executable}
     for part, shards in PARTS:
         ctx.run_harness(exe, ["--part", part], shards=shards, env=env)
     ctx.assume("the Python encoders implement the published format descriptions (PBF: protobuf encoding guide + fileformat.proto/osmformat.proto; "
